@@ -465,7 +465,7 @@ func SuccessReturn(idx int, guard FP) func(ssa.Instruction, resolver) bool {
 		if !ok || idx >= len(rt.Results) {
 			return false
 		}
-		v := res(rt.Results[idx])
+		v := res(unspill(rt, idx))
 		if isNilConst(v) {
 			return true
 		}
@@ -489,7 +489,7 @@ func TrueReturn(idx int, guard FP) func(ssa.Instruction, resolver) bool {
 		if !ok || idx >= len(rt.Results) {
 			return false
 		}
-		v := res(rt.Results[idx])
+		v := res(unspill(rt, idx))
 		if b, ok := boolConst(v); ok {
 			return b
 		}
@@ -507,7 +507,7 @@ func NonNilReturn(idx int, guard FP) func(ssa.Instruction, resolver) bool {
 		if !ok || idx >= len(rt.Results) {
 			return false
 		}
-		v := res(rt.Results[idx])
+		v := res(unspill(rt, idx))
 		if isNilConst(v) {
 			return false
 		}
